@@ -336,6 +336,38 @@ def decHitran (blocks : List (HBlock α)) : CTab α :=
   let temps := tl.mergeSort (fun a b => decide (a ≤ b))
   finalGrid temps (fillGaps temps grids)
 
+/-! ### specification: the documented unified table of a HITRAN file with several wavenumber ranges -/
+
+/-- the documented cross-sections of ONE wavenumber range at temperature `T`, computed from the range's OWN tabulated
+    rows `own` (sorted by temperature) only: the tabulated row if `T` is one of the range's temperatures; zero outside
+    the range's temperature span; otherwise the linear interpolation in `T` between the two tabulated rows whose
+    temperatures bracket `T` -/
+def rangeRow (wn : List α) (own : List (α × List α)) (T : α) : List α :=
+  let temps := own.map (·.1)
+  let i := searchRight temps T - 1
+  let a := own.getD i (0, [])
+  if memv T temps then a.2
+  else if T < lmin temps || lmax temps < T then wn.map (fun _ => 0)
+  else
+    let b := own.getD (i + 1) (0, [])
+    List.zipWith (fun u v => interpLin u v T a.1 b.1) a.2 b.2
+
+/-- the documented unified table of the ranges `grids` on the master temperature list `temps`: wavenumber axis = the
+    ranges' wavenumbers concatenated (order of first appearance in the file) and sorted; the row of temperature `T` =
+    the ranges' documented rows at `T` concatenated and permuted alike -/
+def unifiedTable (temps : List α) (grids : List (HGrid α)) : CTab α :=
+  let wnAll := grids.flatMap (·.wn)
+  let perm := argsort wnAll
+  { wn := gather wnAll perm
+    t := temps
+    x := temps.map fun T => gather (grids.flatMap fun g => rangeRow g.wn (sortTs g.ts) T) perm }
+
+/-- the documented table of a HITRAN file: master temperature list = the sorted union of the block temperatures, the
+    ranges = the blocks grouped by their `(start, end)` header (`hLoad`) -/
+def hitranUnified (blocks : List (HBlock α)) : CTab α :=
+  let (tl, grids) := hLoad blocks
+  unifiedTable (tl.mergeSort (fun a b => decide (a ≤ b))) grids
+
 /-- HITRAN layout of a CIA table: one block per temperature over the whole wavenumber range, values in
     cm⁵/molecule² ×1e10 -/
 def encHitran (pair : String) (tab : CTab α) : List (HBlock α) :=
